@@ -21,7 +21,6 @@ type Prop struct {
 type NA struct{ ID, Reason string }
 
 var NotApplicable = []NA{
-	{"C12", "exactness of float<->decimal conversion is purely numerical (shortest digits, correct rounding over 2^64 inputs); no structural necessary condition beyond a single fallback `if`; see DESIGN.md section 4/C12"},
 }
 
 var commonAssumptions = []string{
@@ -34,9 +33,10 @@ var commonAssumptions = []string{
 var All = []*Prop{
 	{
 		ID:    "C08",
-		Rules: []*core.Rule{rules.UnwindAgree, rules.UnwindTarget, rules.UncatchableClose, rules.IterPop, rules.IterProto, rules.CtxFields},
+		Rules: []*core.Rule{rules.UnwindAgree, rules.UnwindTarget, rules.FinallyEnter, rules.UncatchableClose, rules.IterPop, rules.IterProto, rules.CtxFields},
 		Explanation: "R-UNWINDAGREE: the two compile-time walkers of the block stack (break/continue and return) emit, for every block kind, clean-up instructions with the same effect on vm.tryStack / vm.iterStack (effects derived from the exec methods): a kind unwound by one exit kind and not the other skips a finally or leaves an iterator open. " +
 			"R-UNWINDTARGET: the walk that emits the clean-up code of a break/continue leaves its loop over block.outer early only under an identity comparison of the enclosing block with the target block (seeded three times: an early exit decided by the kind of the enclosing block stops a labelled continue at the first inner for-let loop). " +
+			"R-FINALLYENTER ('exactly once'): every store that disarms tryFrame.finallyPos (= the finally block is being entered) comes with catchPos of the same frame disarmed - by a store in the same block or by a dominating test that it is already negative; otherwise an exception thrown inside the finally block is caught by the statement's own catch and the finally block runs twice (found on the pinned tree in the enterFinally instruction). " +
 			"R-UNCATCHABLECLOSE ('interrupts and stack overflows run none of them'): iterator-closing code on exceptional paths is guarded by a classification excluding uncatchable payloads. " +
 			"R-ITERPOP ('exactly once'): an instruction that pops an iterator record removes it from vm.iterStack before any call that can throw a JS exception past it. " +
 			"R-CTXFIELDS: try/iterator/reference records pending across a yield are saved, cut, restored and re-based consistently, and a suspension with nothing to save cannot inherit the previous suspension's records.",
@@ -75,6 +75,17 @@ var All = []*Prop{
 		NotCovered: "the accepted JSON language itself (delegated to encoding/json's tokenizer: numbers beyond double range, lone surrogates), duplicate keys and key order, reviver and replacer semantics, toJSON, number formatting, gap clamping, property enumeration order, round-trip equality: input/value-level behaviour",
 	},
 	{
+		ID:    "C12",
+		Rules: []*core.Rule{rules.FloatAccum},
+		Explanation: "Very narrow: the numerical correctness of the conversions is not decided. R-FLOATACCUM decides three structural necessary conditions of 'the double nearest to the exact value denoted, for inputs of any length' and of shortest/correct digit generation: " +
+			"(1) no loop in the engine or the parser carries a float64 through the recurrence x' = x*k + d (digit accumulation rounds at every step beyond 2^53, so a long numeral is not correctly rounded) - two such loops existed on the pinned tree, both repaired; " +
+			"(2) the two conversion routines for numerals that do not fit an int64 (parseLargeInt for parseInt, the hexadecimal branch of the lexer's parseNumberLiteral) go through math/big or strconv; " +
+			"(3) ftoa.FToStr uses the fast (Grisu) digits only while fast.Dtoa reports success: the !ok edge calls the exact bignum generator.",
+		Technique:  "recurrence detection on SSA phis (x*k+d carried by a float64 phi), who-calls check for the exact conversion routes, controlling-edge check of the Grisu fallback",
+		DesignRef:  "DESIGN.md section 4, C12",
+		NotCovered: "everything numerical: the digit generation algorithms themselves (ftoa bignum path, Grisu round-weed, prefix handling in the buffer), toFixed/toExponential/toPrecision rounding, toString(radix), decimal text to double (delegated to strconv.ParseFloat), radix-prefixed strings in Number(), BigInt to Number",
+	},
+	{
 		ID:    "C01",
 		Rules: []*core.Rule{rules.PanicPayload, rules.ASTDispatch, rules.SelfAssert, rules.NilDesc, rules.Recover, rules.Classifier, rules.ReflectSafe, rules.EscapeAgree, rules.EmitBalance, rules.PutOnStack, rules.DummyIsolate, rules.EnterSlot, rules.UnwindTarget, rules.NilProto, rules.LockScript},
 		Explanation: "Clauses decided: the engine's own ways of producing a non-documented panic are closed. " +
@@ -105,22 +116,24 @@ var All = []*Prop{
 	},
 	{
 		ID:    "C11",
-		Rules: []*core.Rule{rules.Revoked, rules.TrapPost, rules.TrapInvariant, rules.TrapThrow, rules.NilProto},
+		Rules: []*core.Rule{rules.Revoked, rules.TrapPost, rules.TrapInvariant, rules.TrapThrow, rules.CompatPolarity, rules.NilProto},
 		Explanation: "R-REVOKED ('revoked proxies throw on every operation'): in each of the 41 objectImpl methods declared on proxyObject every dereference of p.target and every call receiving it is dominated by p.checkHandler() (directly or through a helper that always calls it), or by an explicit nil test, or the method is an audited exception; and proxyObject overrides every key-kinded and structural internal method (no silent fallback to baseObject). " +
 			"R-TRAPPOST ('invariant-breaking handlers are rejected' — the structural half): for each key-kinded trap family (defineOwnProperty, hasProperty, hasOwnProperty, getOwnProp, get, setOwn, setForeign, delete) the Str, Idx and Sym variants call the same proxy check helpers, handler traps and target operations modulo key kind, and validate against the target's getOwnProp of their own key kind. " +
 			"R-TRAPINVARIANT: two invariant checks whose shape is decidable - in proxyDeleteCheck every normally returning path with trapResult true and a non-nil target property passes target.self.isExtensible() (both the configurable and the extensible test apply to every existing property, not only to accessor/flagged ones); in proxyOwnKeys the value tested for non-configurability of an omitted key can come from target.getOwnProp (key iterators of most kinds carry no value). " +
 			"R-TRAPTHROW: a conditional throw (typeErrorResult(throw, ...)) in a proxyObject method occurs only under a falsish trap result; everything else - a trap answer that contradicts an invariant of the target - is rejected unconditionally, also for Reflect.* callers. " +
-			"R-NILPROTO (see C01): outside the proxy's own methods every dereference of proxyObject.target / handler is nil-guarded (a revoked callable proxy passed to Function.prototype.toString crashed the host).",
+			"R-NILPROTO (see C01): outside the proxy's own methods every dereference of proxyObject.target / handler is nil-guarded (a revoked callable proxy passed to Function.prototype.toString crashed the host). " +
+			"R-COMPATPOLARITY: every `return false` of __isCompatibleDescriptor that is controlled by a sameness test of a descriptor field (SameAs / identity of the accessor functions) lies on the not-same edge, as in the reference implementation baseObject._defineOwnProperty; the accessor branch was inverted on the pinned tree (reported by three independent agents).",
 		Technique:  "dominance of a revocation check over every target use (SSA, with helper summaries); sibling callee-set agreement across key kinds; method-set override completeness; must-pass-through with excusing edges; value-origin (phi closure) check",
 		DesignRef:  "DESIGN.md section 4, C11",
 		NotCovered: "whether each post-check's boolean conditions are the specification's (__isCompatibleDescriptor, the rest of proxyOwnKeys completeness): decision tables over descriptor values; forwarding equivalence as a whole",
 	},
 	{
 		ID:    "C06",
-		Rules: []*core.Rule{rules.StrBirth, rules.LazyScan},
+		Rules: []*core.Rule{rules.StrBirth, rules.LazyScan, rules.ScratchObj},
 		Explanation: "Normal form: asciiString holds only bytes < 0x80; unicodeString holds at least one unit >= 0x80; an imported Go string decides lazily. ===, hashing and CompareTo assume it. " +
 			"R-STRBIRTH enumerates every birth of the two representation types in the module (constants, conversions, and slices/makes of unicodeString that flow on as a string) and requires an enumerated idiom: for asciiString a pure-ASCII constant, an audited ASCII producer (strconv, ftoa, big.Int, time.Format with an ASCII layout, fmt.Sprintf of numbers), values derived from asciiStrings, byte buffers/builders all of whose writes are ASCII, control dependence on a no-wide-unit test or flag, the early-exit scan idiom, importedString.s after the scan found no wide unit; for unicodeString the unistring.Scan/AsUtf16 result, control dependence on wide-unit evidence (a >= 0x80 comparison, a non-nil UTF-16 source used whole, a flag raised only under such evidence), or building on a unicodeString receiver. Builders kept in struct fields are checked across methods (flag lowered wherever non-provable content is written). " +
-			"R-LAZYSCAN: an imported Go string never consults its lazily computed UTF-16 form, nor uses its raw UTF-8 bytes for anything encoding-sensitive (ordering, hashing, length, indexing), before the scan ran.",
+			"R-LAZYSCAN: an imported Go string never consults its lazily computed UTF-16 form, nor uses its raw UTF-8 bytes for anything encoding-sensitive (ordering, hashing, length, indexing), before the scan ran. " +
+			"R-SCRATCHOBJ: between Value.baseObject(r) - which for a string primitive returns the Runtime's shared scratch String object - and every use of its result there is no call that may run script (path search, refreshed by a new baseObject call); otherwise `\"abc\"[key]` with a key whose toString touches another string reads that other string.",
 		Technique:  "who-may-construct over SSA births with constant evaluation, flag/evidence control dependence and builder write discipline; guard-freshness dataflow for the lazy scan",
 		DesignRef:  "DESIGN.md section 4, C06",
 		NotCovered: "surrogate handling and lone-surrogate preservation (trim/case mapping/normalize go through utf16.Decode), case mapping tables, that StrictEquals/hash/CompareTo are right given the normal form, equality of two unscanned imported strings with invalid UTF-8",
